@@ -109,6 +109,10 @@ class CallMixin:
         if isinstance(fv, Sym) and fv.op == 'attr':
             base, name = fv.args
             return self.method_on_value(base, name, args, kwargs, fr, node)
+        if isinstance(fv, SelfV) and fv.path:
+            # a method of an attribute whose class is not statically known
+            base = SelfV(fv.path[:-1], None, fv.root_cls)
+            return self.method_on_value(base, fv.path[-1], args, kwargs, fr, node)
         return Sym('call', fv, *args)
 
     def method_on_value(self, base, name, args, kwargs, fr, node):
@@ -469,7 +473,7 @@ class CallMixin:
             if is_const(a0) and isinstance(a0, bytes):
                 return a0
             if isinstance(a0, ListV) and a0.complete and not a0.items:
-                return b''
+                return BytesV([])
             return Sym('bytearray', *args)
         if d == 'isinstance' and len(args) == 2:
             return self.isinstance_v(args[0], args[1])
